@@ -49,6 +49,26 @@ def shape_if_compound_undefined(left, op, right, with_else):
     return sh
 
 
+def shape_unselected_definitions(how):
+    def sh(B):
+        res = S.resolver(B)
+        v = B.int("v")
+        S.root_symbols(B, res, {"c": v})
+        put = lambda val: S.ast_macro(B, "put", [], [S.ast_data(B, "db", [S.expr_num(B, val)])])
+        if how == "if":
+            guarded = S.ast_if(B, S.expr_ident(B, "c"), [put(0x22)], None)
+        elif how == "else":
+            guarded = S.ast_if(B, S.expr_ident(B, "c"), [S.ast_label(B, "x")], [put(0x22)])
+        else:  # a loop that runs 0 times (for0) or twice (for2)
+            n = int(how[3:])
+            guarded = S.ast_for(B, "k", S.expr_num(B, 0), S.expr_num(B, n), [put(0x22)])
+            B.assume(v == n)
+        ast = [put(0x11), guarded, S.ast_apply(B, "put", [])]
+        sel, dflt = (0x11, 0x22) if how == "else" else (0x22, 0x11)
+        return {"ast": B.list(ast), "resolver": res, "v": v, "selected_value": sel, "default_value": dflt}
+    return sh
+
+
 def for_body(B):
     # l:  .if i { nz: } else { z: }   .for j := 0, i { inner: }
     return [S.ast_label(B, "l"), S.ast_if(B, S.expr_ident(B, "i"), [S.ast_label(B, "nz")], [S.ast_label(B, "z")]),
@@ -88,6 +108,9 @@ def cases(E):
     for a, b in ((0, 0), (0, 1), (0, 3), (1, 4), (2, 2), (3, 1), (0, 4)):
         for sym in (False, True):
             cs.append(Case(H + "generate_for_contract", f"{a}..{b}{' (bounds from symbols)' if sym else ''}", shape_for(a, b, sym), target=[G + "generate_for"]))
+    for how in ("if", "else", "for0", "for2"):
+        cs.append(Case(H + "unselected_definitions_contract", f"a .macro redefinition inside {'the else block' if how == 'else' else 'an .if block' if how == 'if' else 'a loop running ' + how[3:] + ' times'}",
+                       shape_unselected_definitions(how), target=[G + "code_gen", G + "generate_macro", G + "generate_if", G + "generate_for"]))
     from vf.props import expansion
     cs += expansion.c10_cases(E)
     # "each iteration in its own scope": what the body assigns with `:=` is bound in the iteration's scope, not in the scope the loop was written in
@@ -98,10 +121,15 @@ def cases(E):
     cs += _c08.scope_creation_cases(E)
     # conditions and bounds read names defined any number of scopes further out, through scopes that define nothing themselves
     cs += _c08.chain_cases(E)
+    # a named scope in a loop body exports its names to the ITERATION's scope (each iteration has its own `name.label`), as the unrolled blocks would
+    from vf.props import C02 as _c02
+    for kind, ex in (("named-in-loop", True), ("named", True)):
+        cs.append(Case("vf.contracts.c_labels.restore_scope_export_contract", f"{kind},exports={ex}", _c02.shape_export(kind, ex), target=["a816.symbols.Resolver.restore_scope"]))
     return cs
 
 
-OPTIONAL_CHECKS = {"generate_if_selection_contract": ["nonzero_expands_the_first_block_once", "zero_or_undefined_expands_the_else_block_once", "nothing_expanded_without_else", "expanded_in_the_enclosing_scope"],
+OPTIONAL_CHECKS = {"restore_scope_export_contract": ["exported_same_value", "only_exports_added", "nothing_exported", "parent_symbols_kept"],
+                   "generate_if_selection_contract": ["nonzero_expands_the_first_block_once", "zero_or_undefined_expands_the_else_block_once", "nothing_expanded_without_else", "expanded_in_the_enclosing_scope"],
                    "generator_contract": ["enclosing_scope_current_again", "scope_cursor_consistent", "scopes_only_appended", "returns_a_list"],
                    "generate_if_contract": ["undefined_counts_as_false", "nonzero_selects_first_block", "zero_selects_else_block"],
                    "generate_for_contract": ["iteration_scope_is_loop_scope", "loop_variable_bound_in_iteration_scope", "iteration_brackets"]}
